@@ -192,27 +192,37 @@ func checkSection(c *hx.Ctx, in Input, section uint32, get func(k uint) ethtypes
 		blooms[k] = get(k)
 		bigs[k] = blooms[k][:]
 	}
+	failedMissing, failedDecode, failedBit := false, false, false
 	for i := uint(0); i < ethtypes.BloomBitLength; i++ {
+		for k := uint(0); k < secSize; k++ {
+			if bigs[k][255-i/8]&(1<<(i%8)) != 0 {
+				set[i] = true
+				break
+			}
+		}
 		v, err := read(i)
 		if err != nil {
-			c.Fail("index:missing-record", "ReadBloomBits fails for a bit of a completed section", in, fmt.Sprintf("bit %d section %d: %v", i, section, err), "a record")
-			return
+			if !failedMissing {
+				c.Fail("index:missing-record", "ReadBloomBits fails for a bit of a completed section", in, fmt.Sprintf("bit %d section %d: %v", i, section, err), "a record")
+			}
+			failedMissing = true
+			continue
 		}
 		raw[i] = v
 		vec, err := decompress(v)
 		if err != nil {
-			c.Fail("index:undecodable", "the stored vector does not decompress to BloomBitsBlocks/8 bytes", in, fmt.Sprintf("bit %d section %d: %v", i, section, err), "512 bytes")
-			return
-		}
-		for k := uint(0); k < secSize; k++ {
-			want := bigs[k][255-i/8]&(1<<(i%8)) != 0
-			if want {
-				set[i] = true
+			if !failedDecode {
+				c.Fail("index:undecodable", "the stored vector does not decompress to BloomBitsBlocks/8 bytes", in, fmt.Sprintf("bit %d section %d: %v", i, section, err), "512 bytes")
 			}
+			failedDecode = true
+			continue
+		}
+		for k := uint(0); k < secSize && !failedBit; k++ {
+			want := bigs[k][255-i/8]&(1<<(i%8)) != 0
 			if vecBit(vec, k) != want {
 				c.Fail("index:bit-mismatch", "section vector bit differs from the block bloom bit", in,
 					fmt.Sprintf("section %d bit %d block %d: vector=%v", section, i, k, vecBit(vec, k)), fmt.Sprintf("bloom bit=%v", want))
-				return
+				failedBit = true
 			}
 		}
 	}
@@ -265,12 +275,10 @@ func scenIndex(c *hx.Ctx, in Input) {
 	}
 	set, raw := checkSection(c, in, section, func(k uint) ethtypes.Bloom { return blooms[k] },
 		func(i uint) ([]byte, error) { return ledgerstore.ReadBloomBits(db, i, section) })
-	if raw == nil {
-		return
-	}
 	var bits []string
 	for _, i := range pickBits(r, set, 24, 8) {
-		bits = append(bits, fmt.Sprintf("(%d, %s)", i, coqOptBytes(raw[i], true)))
+		v, ok := raw[i]
+		bits = append(bits, fmt.Sprintf("(%d, %s)", i, coqOptBytes(v, ok)))
 	}
 	// a neighbouring section has no record
 	if _, err := ledgerstore.ReadBloomBits(db, 5, section+1); err == nil {
